@@ -1,60 +1,15 @@
 (* Proofs/PatternObs.v -- C10: what the (repaired) visitor makes of observation
    expressions and qualifiers, and the top-level statement `visit_sv`.        *)
 From Coq Require Import NArith ZArith List String Bool Lia.
-From V Require Import Model.PatternSyntax Proofs.PatternNumbers Proofs.PatternLit Proofs.PatternPath Proofs.PatternCmp.
+From V Require Import Model.PatternSyntax Spec.PatternSpec Proofs.PatternR Proofs.PatternNumbers Proofs.PatternLit Proofs.PatternPath Proofs.PatternCmp.
 Import ListNotations.
 Open Scope N_scope.
 
-Definition sv_qual (q : qual) : aqual :=
-  match q with
-  | QStartStop a b => AQStartStop (sv_lit a) (sv_lit b)
-  | QWithin n => AQWithin (sv_lit n)
-  | QRepeat n => AQRepeat (sv_lit n)
-  end.
 
-Definition sem_qual (q : qual) : bool :=
-  match q with
-  | QStartStop a b => lit_sem a && lit_sem b
-  | _ => true
-  end.
 
-Fixpoint sv_obs (o : obs) : aexpr :=
-  match o with
-  | OSimple e => EObs (sv_or e)
-  | OCompound e => EParen (sv_fb e)
-  | OQual o q => EQualified (sv_obs o) (sv_qual q)
-  end
-with sv_oand (a : obsand) : aexpr :=
-  match a with
-  | OAndBase o => sv_obs o
-  | OAnd l r => ECompound OpAnd [sv_oand l; sv_obs r]
-  end
-with sv_oor (a : obsor) : aexpr :=
-  match a with
-  | OOrBase o => sv_oand o
-  | OOr l r => ECompound OpOr [sv_oor l; sv_oand r]
-  end
-with sv_fb (a : obsfb) : aexpr :=
-  match a with
-  | OFbBase o => sv_oor o
-  | OFb l r => ECompound OpFb [sv_fb l; sv_oor r]
-  end.
 
-Fixpoint sem_obs (o : obs) : bool :=
-  match o with
-  | OSimple e => sem_or e
-  | OCompound e => sem_fb e
-  | OQual o q => sem_obs o && sem_qual q
-  end
-with sem_oand (a : obsand) : bool :=
-  match a with OAndBase o => sem_obs o | OAnd l r => sem_oand l && sem_obs r end
-with sem_oor (a : obsor) : bool :=
-  match a with OOrBase o => sem_oand o | OOr l r => sem_oor l && sem_oand r end
-with sem_fb (a : obsfb) : bool :=
-  match a with OFbBase o => sem_oor o | OFb l r => sem_fb l && sem_oor r end.
 
 (* the whole side condition of the theorems about the visitor *)
-Definition sem (p : pattern) : bool := sem_fb p.
 
 Lemma kind_single : forall t k, kind_in t [k] = true -> tk t = k /\ token_ok t = true.
 Proof.
@@ -85,7 +40,7 @@ Lemma sv_lit_intpos : forall t, kind_in t [KIntPos] = true -> exists z, sv_lit t
 Proof.
   intros t H. destruct (kind_single _ _ H) as [Hk Hok]. destruct t as [k s]. cbn [tk] in Hk. subst k.
   unfold token_ok in Hok. cbn [tk tx] in Hok. destruct (py_int_intpos s Hok) as [z Hz].
-  exists z. unfold sv_lit, visit_terminal. cbn [tk tx]. rewrite Hz. reflexivity.
+  exists z. unfold sv_lit, PatternSyntax.visit_terminal. cbn [tk tx]. rewrite Hz. reflexivity.
 Qed.
 
 Lemma sv_lit_within : forall t, kind_in t [KIntPos; KFloatPos] = true ->
@@ -94,15 +49,15 @@ Proof.
   intros t H. unfold kind_in in H. apply andb_true_iff in H. destruct H as [H1 Hok].
   destruct t as [k s]. cbn [tk] in H1. unfold token_ok in Hok. cbn [tk tx] in Hok.
   destruct k; cbn in H1; try discriminate.
-  - left. destruct (py_int_intpos s Hok) as [z Hz]. exists z. unfold sv_lit, visit_terminal. cbn [tk tx]. rewrite Hz. reflexivity.
-  - right. destruct (py_float_floatpos s Hok) as [f Hf]. exists f. unfold sv_lit, visit_terminal. cbn [tk tx]. rewrite Hf. reflexivity.
+  - left. destruct (py_int_intpos s Hok) as [z Hz]. exists z. unfold sv_lit, PatternSyntax.visit_terminal. cbn [tk tx]. rewrite Hz. reflexivity.
+  - right. destruct (py_float_floatpos s Hok) as [f Hf]. exists f. unfold sv_lit, PatternSyntax.visit_terminal. cbn [tk tx]. rewrite Hf. reflexivity.
 Qed.
 
 Lemma sv_lit_ts : forall t, kind_in t [KTimestamp] = true -> lit_sem t = true -> exists v, sv_lit t = CTimestamp v.
 Proof.
   intros t H S. pose proof (visit_lit t (ts_primitive t H) S) as V.
   destruct (kind_single _ _ H) as [Hk Hok]. destruct t as [k s]. cbn [tk] in Hk. subst k.
-  unfold visit_terminal in V. cbn [tk tx] in V.
+  unfold PatternSyntax.visit_terminal in V. cbn [tk tx] in V.
   destruct (py_strptime _) as [v|]; [|discriminate]. exists v. inversion V. reflexivity.
 Qed.
 
